@@ -88,7 +88,9 @@ func (g *BodyGen) LiteralFor(t cty.Type, depth int) cty.Value {
 		return cty.TupleVal(vs)
 	case t.IsObjectType():
 		m := map[string]cty.Value{}
-		for k, et := range t.AttributeTypes() {
+		atys := t.AttributeTypes()
+		for _, k := range SortedKeys(atys) { // (sorted: every random draw must replay)
+			et := atys[k]
 			if t.AttributeOptional(k) && r.Chance(1, 2) {
 				continue
 			}
